@@ -98,6 +98,34 @@ def explore(res, rng, n):
                                              'clause': 'the stress-range array of the caller was modified', 'input': [lo, hi, st, nn],
                                              'impl_output': arr.tolist()})
                         arr = np.array([lo, hi], dtype=float)
+        # ---- a strength read from a float32 material table with the mean stress close to it (1 - sm / su cancels), and safety factors a hair
+        # above one (finite-difference steps around n = 1): exactly representable numbers, the result is that of the same numbers as floats
+        if i % 5 == 2:
+            import numpy as np
+            su32 = float(np.float32(rng.choice([400.0, 812.5, 1000.0])))
+            hi_s = su32 * rng.choice([0.9998, 0.999, 0.99]) * 2 - 1.0
+            rng_s = [1.0, hi_s]
+            for fname in FNS.values():
+                f = getattr(lcc, fname)
+                for nn in (1.0, 1.0 + 2.0 ** -20, 1.0 + 2.0 ** -17, 1.0 + 2.0 ** -24):
+                    res.evaluations += 1
+                    res.stat('float32_strength_near_mean_and_n_just_above_one')
+                    try:
+                        want = float(f(list(rng_s), su32, nn))
+                        got = float(f(list(rng_s), np.float32(su32), nn))
+                        base = float(f(list(rng_s), su32, 1.0))
+                    except (ValueError, ZeroDivisionError):
+                        continue
+                    if not (math.isfinite(want) and math.isfinite(base)):
+                        continue
+                    if not gen.close(got, want, 1e-9):
+                        res.failures.append({'signature': f'C09:{fname}:float32-strength:{rng_s}:{su32}:{nn}', 'api': fname,
+                                             'clause': 'value changes when the strength is the same number as a numpy float32 scalar',
+                                             'input': [rng_s, su32, nn], 'impl_output': [got, want]})
+                    if nn > 1.0 and not (want > base):
+                        res.failures.append({'signature': f'C09:{fname}:n-just-above-one:{rng_s}:{su32}:{nn}', 'api': fname,
+                                             'clause': 'the corrected amplitude does not grow with a safety factor marginally above one',
+                                             'input': [rng_s, su32, nn], 'impl_output': {'n': want, 'n=1': base}})
         # ---- integer / single-precision stress arrays and numpy scalars of every kind: the result is that of the same real numbers
         if i % 5 == 1:
             import numpy as np
@@ -108,8 +136,10 @@ def explore(res, rng, n):
                 f = getattr(lcc, fname)
                 try:
                     want = float(f([float(lo_i), float(hi_i)], st_i, float(n_i)))
-                except ValueError:
+                except (ValueError, ZeroDivisionError):
                     continue
+                if not math.isfinite(want):
+                    continue            # mean * n = strength exactly: the boundary of the admissible set (the limit is infinite)
                 variants = {}
                 for dt in (np.int16, np.int32, np.uint8, np.int8, np.float32, np.int64):
                     info = np.iinfo(dt) if np.issubdtype(dt, np.integer) else None
